@@ -152,6 +152,12 @@ def run_rule(run, p, pid):
         layouts = ['ab-%d' % i for i in (1, 22, 333)] + ['x%s' % ('y' * k) for k in (1, 2, 3)] + ['%d.%d' % (i, i * 7) for i in (1, 20, 300)] + \
                   ['Q_%s' % c for c in 'abc'] + ['(%d)' % i for i in (5, 66)] + ['k=%s' % c for c in ('v', 'ww')]
         cases = cases + [('sixteen-layouts', layouts, 'sampled', {'#small-size': True})]
+    if pid in ('C13', 'C14'):
+        # fragments of variable length: the merge of a shorter and a longer value must not depend on which came first
+        cases = cases + [('optional-tail', ['ab12', 'cd'], 'variable-length', {'variableLengthFrags': True}),
+                         ('optional-last-letter-longer-first', ['data', 'dat'], 'variable-length', {'variableLengthFrags': True}),
+                         ('optional-last-letter', ['beta', 'bet', 'be'], 'variable-length', {'variableLengthFrags': True}),
+                         ('optional-letter-inside-longer-first', ['https://a.com', 'http://b.com', 'http://c.com'], 'variable-length', {'variableLengthFrags': True})]
     if pid == 'C03':
         # sampling with the smallest sizes: whatever is left unmatched after the sampled attempts is all taken in at the end
         cases = cases + [('five-layouts', ['ab-1', 'xyy', '3.21', 'Q_a', '(5)'], 'tiny-size', {'#small-size': (1, 1), 'seed': 3}),
@@ -159,7 +165,9 @@ def run_rule(run, p, pid):
                          ('five-layouts', ['ab-1', 'xyy', '3.21', 'Q_a', '(5)'], 'zero-exceptions-size', {'#small-size': (2, 0), 'seed': 1}),
                          ('five-layouts', ['ab-1', 'xyy', '3.21', 'Q_a', '(5)'], 'no-initial-sample', {'#small-size': (0, 2), 'seed': 5}),
                          ('optional-tail', ['ab12', 'cd'], 'variable-length', {'variableLengthFrags': True}),
-                         ('optional-tail-letters', ['abcc', 'ab', 'zz'], 'variable-length', {'variableLengthFrags': True})]
+                         ('optional-tail-letters', ['abcc', 'ab', 'zz'], 'variable-length', {'variableLengthFrags': True}),
+                         ('optional-last-letter-longer-first', ['data', 'dat'], 'variable-length', {'variableLengthFrags': True}),
+                         ('optional-letter-inside-longer-first', ['https://a.com', 'http://b.com'], 'variable-length', {'variableLengthFrags': True})]
     run.rule(rid, texts[pid] % len(cases))
     f = p.fn(RX + 'extract')
     n = 0
@@ -306,3 +314,47 @@ def hook_rule(run, p, pid):
             run.ob(rid, '%s::%s::%s' % (f.rel, f.short, name), bad is None,
                    '%s on %s: %s' % (f.short, name, bad or '%d expression(s) match every value' % len(res)), fn=f)
     run.floor(rid, n, 4)
+
+
+def size_rule(run, p, rid='C14-SIZE'):
+    """rexpy.Size evaluated: every parameter keeps the value it is given, falsy values included"""
+    run.rule(rid, 'the sampling parameters are what the caller says: rexpy.Size, evaluated, stores every parameter it is given - also '
+                  'False and 0 (use_sampling=False is how sampling is switched off; with sampling on, results depend on the sample '
+                  'drawn and so on the order of the examples) - derives do_all from use_sampling only when do_all is not given, and '
+                  'refuses unknown names')
+    sym = p.mod('tdda.rexpy.rexpy').syms['Size']
+    f = p.cls('Size').methods['__init__']
+    consts = {}
+    for nm in ('USE_SAMPLING', 'DO_ALL_SIZE'):
+        try:
+            consts[nm] = p.const('tdda.rexpy.rexpy', nm)
+        except AnalysisError:
+            raise AnalysisError('rexpy.%s not found' % nm)
+    params = ('use_sampling', 'do_all', 'do_all_exceptions', 'n_per_length', 'max_sampled_attempts', 'max_punc_in_group', 'max_strings_in_group')
+    n = 0
+
+    def make(**kw):
+        I = _interp(p)
+        try:
+            return I.apply(('#sym', sym), [], kw), None
+        except Raised as e:
+            return None, 'raises %s' % e
+        except Unsupported as e:
+            raise AnalysisError('rexpy.Size is not evaluable: %s' % e)
+    for prm in params:
+        for v in ((False, True) if prm == 'use_sampling' else (0, 1, 7)):
+            o, err = make(**{prm: v})
+            got = o.attrs.get(prm) if o is not None else err
+            n += 1
+            run.ob(rid, 'Size(%s=%r)' % (prm, v), o is not None and got == v and type(got) is type(v),
+                   'Size(%s=%r).%s is %r' % (prm, v, prm, got), fn=f)
+    for us, want in ((False, consts['DO_ALL_SIZE']), (True, 100)):
+        o, err = make(use_sampling=us)
+        got = o.attrs.get('do_all') if o is not None else err
+        n += 1
+        run.ob(rid, 'Size(use_sampling=%r).do_all' % us, o is not None and (got == want if not us else got is not None and got < consts['DO_ALL_SIZE']),
+               'Size(use_sampling=%r).do_all is %r (%s)' % (us, got, 'every example is used: DO_ALL_SIZE = %r' % want if not us else 'a sample size below DO_ALL_SIZE'), fn=f)
+    o, err = make(no_such_parameter=3)
+    n += 1
+    run.ob(rid, 'Size(unknown)', o is None, 'an unknown parameter %s' % ('is refused' if o is None else 'is accepted silently'), fn=f)
+    run.floor(rid, n, 20)
